@@ -3,7 +3,7 @@
 (* PolyAlgebra over exact unbounded rationals, plus the decoding of f64    *)
 (* coefficient vectors and the scope / exactness predicates of C01.        *)
 (***************************************************************************)
-EXTENDS Integers, Sequences, F64, RealFns
+EXTENDS Integers, Sequences, TLC, F64, RealFns
 
 B == INSTANCE PolyAlgebra WITH Zero <- BRZero, One <- BROne, Add <- BRAdd, Sub <- BRSub, Mul <- BRMul,
                                Div <- BRDiv, Neg <- BRNeg, Abs <- BRAbs, Leq <- BRLe, FromInt <- BR
@@ -36,6 +36,15 @@ MinVal2(t, i, acc) == IF i > Len(t) THEN acc
 ExactCase(c, x) ==
     LET t == TermSeq(c, x)  q == MinVal2(t, 1, 5000) IN
     q = 5000 \/ BRLt(B!AbsEval(c, x), BRPow2(q + 53))
+
+\* err <= tol, recording in TLC register 15 the worst err/tol seen (in percent, capped): how much of each
+\* tolerance the real code actually uses -- the evidence that a tolerance is neither vacuous nor tight
+Pct(err, tol) ==
+    IF tol = BRZero THEN (IF err = BRZero THEN 0 ELSE 1000000)
+    ELSE LET r == BRDiv(BRMul(BR(100), err), tol) IN IF BRGe(r, BR(1000000)) THEN 1000000 ELSE BRFloorInt(r) + 1
+LeTracked(err, tol) ==
+    /\ TLCSet(15, LET v == Pct(err, tol) IN IF v > TLCGet(15) THEN v ELSE TLCGet(15))
+    /\ BRLe(err, tol)
 
 \* the C01 bound 4(n+2) 2^-53 sum |c_i||x|^i,  n = degree
 Degree(c) == IF Len(c) = 0 THEN 0 ELSE Len(c) - 1
